@@ -51,6 +51,25 @@ fn check_instant(ns: i128, f: [i64; 6], fails: &mut Vec<Failure>) {
             Err(_) => fails.push(Failure { what: "Instant add/subtract panicked".into(), input, expected: format!("{want}"), observed: "panic".into() }),
         }
     }
+    // instants (and wall-clock times) refuse calendar and day units: a non-zero years / months / weeks / days field is an error
+    {
+        use temporal_rs::primitive::FiniteF64 as F;
+        let z0 = F::default();
+        for (k, v) in [(0usize, 1.0f64), (1, -2.0), (2, 3.0), (3, 1.0), (3, -40.0)] {
+            let mut date = [z0; 4];
+            date[k] = F::try_from(v).unwrap();
+            let hrs = F::try_from(if v < 0.0 { -3.0 } else { 3.0 }).unwrap();
+            let Ok(dd) = Duration::new(date[0], date[1], date[2], date[3], hrs, z0, z0, z0, z0, z0) else { continue };
+            for sub in [false, true] {
+                let input = format!("epoch_ns={ns} {} a duration with date field #{k} = {v} and 3 hours", if sub { "subtract" } else { "add" });
+                match catch_unwind(|| if sub { i.subtract(dd) } else { i.add(dd) }) {
+                    Ok(Ok(r)) => fails.push(Failure { what: "Instant add/subtract accepted a calendar / day unit".into(), input, expected: "RangeError".into(), observed: format!("{}", r.epoch_nanoseconds().as_i128()) }),
+                    Ok(Err(_)) => {}
+                    Err(_) => fails.push(Failure { what: "Instant add/subtract panicked".into(), input, expected: "RangeError".into(), observed: "panic".into() }),
+                }
+            }
+        }
+    }
     // instant -> UTC wall clock (also C01: instant and date-time determine each other)
     if let Ok(tz) = TimeZone::try_from_str("UTC") {
         if let Ok(Ok(z)) = catch_unwind(|| ZonedDateTime::try_new(ns, Calendar::default(), tz)) {
